@@ -417,7 +417,11 @@ class C13(core.Check):
         sessions.RamSession.cache.clear()
         sessions.RamSession.locks.clear()
         shutil.rmtree(self.work, ignore_errors=True)
-        os.makedirs(self.work)
+        if os.path.exists(self.work):            # a blocked worker of an earlier case still holds files there
+            self._gen = getattr(self, '_gen', 0) + 1
+            self.work = os.path.join(core.WORK, 'C13', 'store.%d.%d' % (os.getpid(), self._gen))
+            shutil.rmtree(self.work, ignore_errors=True)
+        os.makedirs(self.work, exist_ok=True)
         app = self.app_for(backend, mode)
 
         def request(outcome, faults, cookie=None, abandon=None):
